@@ -18,6 +18,7 @@ import PV.Model.JsonRep
 import PV.Model.Dobs
 import PV.Model.Cov
 import PV.Model.Gevp
+import PV.Model.Names
 
 open Lean PV PV.Wire
 
@@ -371,6 +372,23 @@ def opGevp (j : Json) : Except String Json := do
       pure (obj [("vals", enc (projectedList content vs))])
   | _ => .error s!"unknown gevp request {what}"
 
+/-- op "sortnames": {"names": [str]} -> {"names": [...]} | {"exc": ...};
+    op "select": {"cl": [int], "r_start", "r_stop", "r_step"} -> {"selected": [...]} | {"exc": "select"} -/
+def opSortNames (j : Json) : Except String Json := do
+  let names : List String ← get j "names"
+  match Names.sortNames names with
+  | .ok r => pure (obj [("names", enc r)])
+  | .error e => pure (obj [("exc", .str (reprStr e))])
+
+def opSelect (j : Json) : Except String Json := do
+  let cl : List Int ← get j "cl"
+  let rstart : Option Int ← get j "r_start"
+  let rstop : Option Int ← get j "r_stop"
+  let rstep : Nat ← get j "r_step"
+  match Bytes.select cl (List.range cl.length) rstart rstop rstep with
+  | none => pure (obj [("exc", .str "select")])
+  | some (sel, pos) => pure (obj [("selected", enc sel), ("positions", enc pos)])
+
 def dispatch (op : String) (j : Json) : Except String Json :=
   match op with
   | "gamma" => opGamma false j
@@ -388,6 +406,8 @@ def dispatch (op : String) (j : Json) : Except String Json :=
   | "dobs" => opDobs j
   | "cov" => opCov j
   | "gevp" => opGevp j
+  | "sortnames" => opSortNames j
+  | "select" => opSelect j
   | "jsonrep" => opJsonRep j
   | "renumber" => opRenumber j
   | "mkobs" => opMkObs j
